@@ -17,6 +17,8 @@ pub fn profile(name: &str) -> Option<GenFn> {
         "kinds" => genp::kinds,
         "tree" => genp::tree,
         "faults" => genp::faults,
+        "registry" => genp::registry,
+        "broker" => genp::broker,
         "svcfaults" => genp::svcfaults,
         _ => return None,
     })
